@@ -13,7 +13,7 @@ from .model import Src, g_char, g_text
 from .refs import DIALECTS
 
 SOUP_ALPHABET = ["|", "\\", "n", "@", "#", ":", '"', "`", "<", ">", " ", "\t", "\r", "\n", "\n", "a", "*", "-", "{", "}", "%", "'", "$", "(", ")", "[", "]"]
-DECOYS = ["@ smoke", "@a @\tb", "@ a b", "@a@ b", "# language: es-419", "#language: fr2", "# language: [fr]", "#language:en^", "# language: `en`", "# language: français", "#language: en_au", "#language: en-au",
+DECOYS = ["#language: en-", "# language: _fr", "#language: pt--BR", "@ smoke", "@a @\tb", "@ a b", "@a@ b", "# language: es-419", "#language: fr2", "# language: [fr]", "#language:en^", "# language: `en`", "# language: français", "#language: en_au", "#language: en-au",
           "{\"json\": {\"a\": 1}}", "Given {int} cukes", "{0} {name} {", "} %s %d %(k)s", "100% done", "it's", "@a b", "@", "@t #c", "#language: xx", "# language: fr", "#language:en", "| a |", "| a | b |", "|", "| \\", "| \\| | \\n |", '"""', "```",
           '"""json', "``` x", "Examples:", "Scenario: s", "Scenario Outline: <a>", "Feature: f", "Rule: r", "Background:", "Given x", "And <a>", "* y",
           "When ", "Then <b> z", "", "  ", "text", "\t", "\r", "<a>", "|(|", "| a(b | $1 |", "Given <a(b> <$1> <[>", "@x #c", " ", "\x0b", "\x1c", "\x85",
@@ -184,6 +184,17 @@ def big_documents(thorough=False):
         out.append(("bad-unexpected-indent-%d" % n, "Feature: f\n Scenario: s\n  Given x\n" + " " * n + "Examples:\n" + " " * n + "| a |\n" + "\t" * n + "nonsense\n"))
         out.append(("bad-many-errors-%d" % n, "Feature: f\n" + "".join(" Scenario: s%d\n  Given x\n  bad line %d\n" % (i, i) for i in range(n))))
         out.append(("bad-eof-in-docstring-%d" % n, "Feature: f\n Scenario: s\n  Given d\n   \"\"\"\n" + "x\n" * n))
+    for n in [9, 10, 12, 16, 17, 24, 33, 40, 65]:
+        for with_rows in ([1, 8], [1, n - 1], [n - 1, 0], [8, 3], [n - 2], list(range(0, n, 7)), [8, 9, 1]):
+            blocks = []
+            for i in range(n):
+                if i in with_rows:
+                    blocks.append(" @e%d\n Examples: e%d\n   | a |\n   | %d |\n   | %dx |\n" % (i, i, i, i))
+                elif i % 3 == 0:
+                    blocks.append(" Examples: header only %d\n   | a |\n" % i)
+                else:
+                    blocks.append(" @t%d\n Examples: no table %d\n" % (i, i))
+            out.append(("sparse-examples-%d-%s" % (n, "-".join(map(str, with_rows))), "Feature: f\n Scenario Outline: o <a>\n  Given <a>\n" + "".join(blocks)))
     for n in [600, 1200] + ([5000] if thorough else []):
         out.append(("tagged-scenarios-%d" % n, "Feature: f\n" + "".join(" @a%d\n # c\n Scenario Outline: s%d\n  Given <x>\n @e\n\n Examples:\n  | x |\n  | 1 |\n" % (i, i) for i in range(n))))
     for n in [1200, 3500] + ([20000] if thorough else []):
